@@ -313,6 +313,13 @@ def run(ctx: Ctx) -> None:
                         stmt_key(call) + unparse(a, 20), what="the function source is normalised by a lossy text rewrite before hashing")
     rep.floor("C01.R9", n9, 2)
 
+    dismiss_rule(ctx, "C01.R6")
+
+
+def dismiss_rule(ctx: Ctx, rule: str) -> None:
+    """every `return None` of the name resolver is dominated by the outcome `name not in module.__dict__`"""
+    rep = ctx.report
+    prog = ctx.prog
     # ---- R6 -------------------------------------------------------------------------------
     ro = prog.funcs.get("dds._retrieve_objects.ObjectRetrieval.retrieve_object")
     if ro is None:
@@ -328,11 +335,11 @@ def run(ctx: Ctx) -> None:
         desc = "a name is dismissed (`return None`) only after it was not found in the module's namespace"
         w = dominated(ctx, ro, r, absent)
         if w is None:
-            rep.ok("C01.R6", ro.qname, desc, ro.loc(r))
+            rep.ok(rule, ro.qname, desc, ro.loc(r))
         else:
-            rep.bad("C01.R6", ro.qname, desc, ro.loc(r), w + ["an object of an accepted module whose name is dismissed before the lookup (e.g. a name that shadows a builtin) is never tracked: "
+            rep.bad(rule, ro.qname, desc, ro.loc(r), w + ["an object of an accepted module whose name is dismissed before the lookup (e.g. a name that shadows a builtin) is never tracked: "
                     "editing it leaves every signature unchanged"], stmt_key(r), what="names are dismissed without consulting the module namespace")
-    rep.floor("C01.R6", n6, 2)
+    rep.floor(rule, n6, 2)
 
 
 def tracked_type_table(ctx: Ctx) -> None:
